@@ -20,7 +20,10 @@
 //! The check can fail — tried on a scratch copy of the repository (see the engine report):
 //! removing the `POU code out of bounds` check of validate, making encode drop `VarMeta.retain`,
 //! an off-by-one section length in encode, `>` -> `> len+1` in `BytecodeReader::read_bytes`
-//! are each reported; with the repairs for the defects found on the unchanged tree applied, both
+//! are each reported; passing `depth` instead of `depth + 1` in the ARRAY-element / STRUCT-UNION-
+//! field recursion of `validate_const_payload_entry` (guard counts alias hops only) is reported by
+//! the "aggcycle" family as `C11/abort/stack-overflow:stage=validate:mut=aggcycle:section=TYPE_TABLE:
+//! field=aggregate-only-cycle` (controls with one alias/subrange hop stay Err); with the repairs for the defects found on the unchanged tree applied, both
 //! tiers are clean.
 //!
 //! Process model: the `iso` worker (RLIMIT_AS, RUST_BACKTRACE=0) is a fork server. It forks a
@@ -38,7 +41,7 @@ use crate::par::par_map;
 use serde_json::{json, Value};
 use std::collections::{BTreeMap, BTreeSet, HashSet};
 use std::time::{Duration, Instant};
-use trust_runtime::bytecode::{BytecodeModule, SectionData, SectionId};
+use trust_runtime::bytecode::{BytecodeModule, ConstEntry, Field, SectionData, SectionId, TypeData, TypeEntry, TypeKind};
 use trust_runtime::harness::{CompileSession, SourceFile};
 
 const RLIMIT_AS: u64 = 1 << 30;
@@ -1033,8 +1036,119 @@ pub fn walk(b: &[u8]) -> Result<Layout, String> {
 // ------------------------------------------------------------------------------------------------
 
 pub const FAMILIES: &[&str] = &[
-    "byte", "u16", "u32", "i64", "tag", "trunc", "trunc-fixup", "seclen", "table", "typeref", "header",
+    "byte", "u16", "u32", "i64", "tag", "trunc", "trunc-fixup", "seclen", "table", "typeref", "header", "aggcycle",
 ];
+
+// ---- family "aggregate type cycles": containers REBUILT (not edited in place) from a seed: type
+// entries are appended / rewritten so that a type refers to itself through STRUCT / UNION / ARRAY
+// (and, as controls, through exactly one ALIAS / SUBRANGE hop), and a CONST_POOL entry of that
+// type is appended whose payload is the repetition that keeps the constant-payload walk of
+// validate going: one `u32 count` per aggregate level. Lengths, offsets and CRC are produced by
+// the subject's own `encode` (used as a builder only; nothing about it is judged here).
+
+pub const AGG_LEVELS: &[usize] = &[1, 16, 256, 4096, 65_536, 1_048_576];
+
+/// (shape, has an alias/subrange hop in the cycle)
+pub const AGG_SHAPES: &[(&str, bool)] = &[
+    ("struct-self", false),
+    ("union-self", false),
+    ("array-self", false),
+    ("struct<->array", false),
+    ("struct<->union", false),
+    ("array<->union", false),
+    ("rewrite-struct-self", false),
+    ("rewrite-union-self", false),
+    ("rewrite-array-self", false),
+    ("struct->alias->struct", true),
+    ("array->subrange->array", true),
+    ("union->subrange->union", true),
+    ("struct->array->alias->struct", true),
+];
+
+fn agg_class(shape: &str) -> &'static str {
+    match AGG_SHAPES.iter().find(|(n, _)| *n == shape) {
+        Some((_, true)) => "cycle-with-alias-hop",
+        _ => "aggregate-only-cycle",
+    }
+}
+
+/// Builds the container of one (shape, levels) recipe from a valid seed. None = the shape does not
+/// apply to this seed (no string to name a field with, no entry of the kind to rewrite) or the
+/// builder failed.
+pub fn agg_container(seed: &[u8], shape: &str, levels: usize) -> Option<Vec<u8>> {
+    catch(|| {
+        let mut m = BytecodeModule::decode(seed).ok()?;
+        let has_string = matches!(m.section(SectionId::StringTable), Some(SectionData::StringTable(t)) if !t.entries.is_empty());
+        if !has_string {
+            return None;
+        }
+        let mk = |kind: TypeKind, data: TypeData| TypeEntry { kind, name_idx: None, data };
+        let st = |to: u32| mk(TypeKind::Struct, TypeData::Struct { fields: vec![Field { name_idx: 0, type_id: to }] });
+        let un = |to: u32| mk(TypeKind::Union, TypeData::Union { fields: vec![Field { name_idx: 0, type_id: to }] });
+        let ar = |to: u32| mk(TypeKind::Array, TypeData::Array { elem_type_id: to, dims: vec![(0, 0)] });
+        let al = |to: u32| mk(TypeKind::Alias, TypeData::Alias { target_type_id: to });
+        let su = |to: u32| mk(TypeKind::Subrange, TypeData::Subrange { base_type_id: to, lower: 0, upper: 0 });
+        let (const_type, word): (u32, u32);
+        {
+            let Some(SectionData::TypeTable(tt)) = m.section_mut(SectionId::TypeTable) else { return None };
+            let t = tt.entries.len() as u32;
+            const_type = t;
+            word = 1;
+            let mut rewritten: Option<(u32, u32)> = None;
+            match shape {
+                "struct-self" => tt.entries.push(st(t)),
+                "union-self" => tt.entries.push(un(t)),
+                "array-self" => tt.entries.push(ar(t)),
+                "struct<->array" => tt.entries.extend([st(t + 1), ar(t)]),
+                "struct<->union" => tt.entries.extend([st(t + 1), un(t)]),
+                "array<->union" => tt.entries.extend([ar(t + 1), un(t)]),
+                "struct->alias->struct" => tt.entries.extend([st(t + 1), al(t)]),
+                "array->subrange->array" => tt.entries.extend([ar(t + 1), su(t)]),
+                "union->subrange->union" => tt.entries.extend([un(t + 1), su(t)]),
+                "struct->array->alias->struct" => tt.entries.extend([st(t + 1), ar(t + 2), al(t)]),
+                "rewrite-struct-self" | "rewrite-union-self" | "rewrite-array-self" => {
+                    for (i, e) in tt.entries.iter_mut().enumerate() {
+                        let i = i as u32;
+                        match (&mut e.data, shape) {
+                            (TypeData::Struct { fields }, "rewrite-struct-self") | (TypeData::Union { fields }, "rewrite-union-self") if !fields.is_empty() => {
+                                fields[0].type_id = i;
+                                rewritten = Some((i, fields.len() as u32));
+                            }
+                            (TypeData::Array { elem_type_id, .. }, "rewrite-array-self") => {
+                                *elem_type_id = i;
+                                rewritten = Some((i, 1));
+                            }
+                            _ => continue,
+                        }
+                        break;
+                    }
+                    rewritten?;
+                }
+                _ => return None,
+            }
+            tt.offsets.clear();
+            if let Some((i, w)) = rewritten {
+                // const of the rewritten entry; every level = `u32 field_count` (first field recurses)
+                let mut payload = Vec::with_capacity(levels * 4);
+                for _ in 0..levels {
+                    payload.extend_from_slice(&w.to_le_bytes());
+                }
+                let Some(SectionData::ConstPool(cp)) = m.section_mut(SectionId::ConstPool) else { return None };
+                cp.entries.push(ConstEntry { type_id: i, payload });
+                return m.encode().ok();
+            }
+        }
+        let mut payload = Vec::with_capacity(levels * 4);
+        for _ in 0..levels {
+            payload.extend_from_slice(&word.to_le_bytes());
+        }
+        let Some(SectionData::ConstPool(cp)) = m.section_mut(SectionId::ConstPool) else { return None };
+        cp.entries.push(ConstEntry { type_id: const_type, payload });
+        m.encode().ok()
+    })
+    .ok()
+    .flatten()
+}
 
 #[derive(Clone, Copy)]
 pub struct Edit {
@@ -1817,6 +1931,35 @@ pub fn worker(case: &Value) -> Value {
             let bytes = unhex(case["bytes_hex"].as_str().unwrap_or(""));
             (WorkCtx::new(Prog::from_json(&case["prog"]), None), vec![(0u8, bytes)])
         }
+        Some("agg") => {
+            // {"mode":"agg", "seed_file"|"seed_hex", "prog_file"|"prog", "recipes":[[shape, levels]..]}
+            let seed = match (case["seed_file"].as_str(), case["seed_hex"].as_str()) {
+                (Some(f), _) => match std::fs::read(f) {
+                    Ok(b) => b,
+                    Err(e) => return json!({"machinery": format!("cannot read seed file: {e}")}),
+                },
+                (None, Some(h)) => unhex(h),
+                _ => return json!({"machinery": "agg: no seed"}),
+            };
+            let prog = match case["prog_file"].as_str() {
+                Some(f) => match std::fs::read_to_string(f).ok().and_then(|t| serde_json::from_str::<Value>(&t).ok()) {
+                    Some(v) => Prog::from_json(&v),
+                    None => return json!({"machinery": "cannot read prog file"}),
+                },
+                None => Prog::from_json(&case["prog"]),
+            };
+            let fam = FAMILIES.iter().position(|f| *f == "aggcycle").unwrap_or(0) as u8;
+            let mut inputs = Vec::new();
+            for r in case["recipes"].as_array().cloned().unwrap_or_default() {
+                let shape = r[0].as_str().unwrap_or("");
+                let levels = r[1].as_u64().unwrap_or(1) as usize;
+                match agg_container(&seed, shape, levels) {
+                    Some(b) => inputs.push((fam, b)),
+                    None => return json!({"machinery": format!("agg: cannot build {shape} x {levels}")}),
+                }
+            }
+            (WorkCtx::new(prog, Some(&seed)), inputs)
+        }
         _ => return json!({"machinery": "unknown worker mode"}),
     };
     // runtimes of the (valid) seed program are built once here; children inherit pristine copies
@@ -2007,8 +2150,12 @@ pub fn check_case(case: &Value) -> Vec<Violation> {
                 Err(m) => vec![rt_violation(&p, "panic", "harness", &m)],
             }
         }
-        Some("mutant") => {
-            let req = json!({"mode": "one", "bytes_hex": case["bytes_hex"], "prog": case["prog"], "limit_ms": 120_000});
+        Some("mutant") | Some("agg") => {
+            let req = if case["kind"].as_str() == Some("agg") {
+                json!({"mode": "agg", "seed_hex": case["seed_hex"], "prog": case["prog"], "recipes": [[case["shape"], case["levels"]]], "limit_ms": 120_000})
+            } else {
+                json!({"mode": "one", "bytes_hex": case["bytes_hex"], "prog": case["prog"], "limit_ms": 120_000})
+            };
             let cfg = pool_cfg(1, Duration::from_secs(600), None);
             let outs = match iso::run_pool(&cfg, &[req]) {
                 Ok(o) => o,
@@ -2019,7 +2166,7 @@ pub fn check_case(case: &Value) -> Vec<Violation> {
             let field = case["field"].as_str().unwrap_or("?");
             let descr = case["mutation"].as_str().unwrap_or("");
             let seed_name = case["seed"].as_str().unwrap_or("?");
-            let size = case["bytes_hex"].as_str().map(|s| s.len() / 2).unwrap_or(0);
+            let size = case["bytes_hex"].as_str().map(|s| s.len() / 2).or(case["size"].as_u64().map(|n| n as usize)).unwrap_or(0);
             match outs.into_iter().next().flatten() {
                 Some(iso::Outcome::Ok(v)) => {
                     let (panics, deaths) = parse_reply(&v);
@@ -2043,6 +2190,24 @@ pub fn check_case(case: &Value) -> Vec<Violation> {
 struct Item {
     seed: usize,
     idxs: Vec<u32>,
+    /// non-empty = an item of the aggregate-cycle family: (index into AGG_SHAPES, levels)
+    agg: Vec<(usize, usize)>,
+}
+
+impl Item {
+    fn len(&self) -> usize {
+        self.idxs.len() + self.agg.len()
+    }
+}
+
+fn agg_case(seed: &Seed, shape: &str, levels: usize) -> (Value, String) {
+    let size = levels * 4 + seed.bytes.len();
+    let descr = format!("type table extended/rewritten to the cycle {shape}; one constant of that type appended whose payload is {levels} x u32 count (one per aggregate level); lengths and CRC recomputed");
+    (
+        json!({"kind": "agg", "seed": seed.name, "prog": seed.prog.to_json(), "family": "aggcycle", "section": "TYPE_TABLE", "field": agg_class(shape),
+               "sizing_field": true, "shape": shape, "levels": levels, "size": size, "mutation": descr, "seed_hex": hex(&seed.bytes)}),
+        descr,
+    )
 }
 
 type Panics = Vec<(String, String, String, String)>;
@@ -2291,12 +2456,41 @@ pub fn run(ctx: &Ctx) -> EngineResult {
     }
     let batch = 200usize;
     let mut queue: Vec<Item> = Vec::new();
+    // aggregate type cycles first (few, simplest = shortest payload first across all seeds)
+    let mut agg_total = 0u64;
+    let mut agg_shapes_applicable: BTreeSet<&str> = BTreeSet::new();
+    for &levels in AGG_LEVELS {
+        for (i, s) in seeds.iter().enumerate() {
+            let shapes: Vec<(usize, usize)> = AGG_SHAPES
+                .iter()
+                .enumerate()
+                .filter(|(_, (n, _))| agg_container(&s.bytes, n, 1).is_some())
+                .map(|(k, _)| (k, levels))
+                .collect();
+            for (k, _) in &shapes {
+                agg_shapes_applicable.insert(AGG_SHAPES[*k].0);
+            }
+            agg_total += shapes.len() as u64;
+            // big payloads: fewer per worker request (each is built in the worker before it forks)
+            for ch in shapes.chunks(if levels >= 65_536 { 4 } else { 13 }) {
+                queue.push(Item { seed: i, idxs: Vec::new(), agg: ch.to_vec() });
+            }
+        }
+    }
+    if agg_shapes_applicable.len() < 10 && rep.violations.is_empty() {
+        return machinery(format!("aggregate-cycle family vacuous: only {:?} apply to the seeds", agg_shapes_applicable));
+    }
+    fam_counts.insert("aggcycle", agg_total);
+    rep.set("mutants_by_family", json!(fam_counts));
+    rep.set("mutants", total_muts + agg_total);
+    rep.set("aggcycle_shapes_applicable", json!(agg_shapes_applicable));
     for (i, s) in seeds.iter().enumerate() {
         let all: Vec<u32> = (0..s.set.muts.len() as u32).collect();
         for ch in all.chunks(batch) {
-            queue.push(Item { seed: i, idxs: ch.to_vec() });
+            queue.push(Item { seed: i, idxs: ch.to_vec(), agg: Vec::new() });
         }
     }
+    let mut agg_fails: Vec<(usize, usize, usize, Fail)> = Vec::new();
     let mut hist: BTreeMap<String, u64> = BTreeMap::new();
     let mut fails: Vec<(usize, u32, Fail)> = Vec::new();
     let (mut nontrivial, mut validated, mut executed, mut deaths, mut shared_div, mut retried, mut forks) = (0u64, 0u64, 0u64, 0u64, 0u64, 0u64, 0u64);
@@ -2308,6 +2502,12 @@ pub fn run(ctx: &Ctx) -> EngineResult {
             .iter()
             .map(|it| {
                 let s = &seeds[it.seed];
+                if !it.agg.is_empty() {
+                    return json!({"mode": "agg",
+                       "seed_file": work.join(format!("seed{}.bin", it.seed)).display().to_string(),
+                       "prog_file": work.join(format!("seed{}.json", it.seed)).display().to_string(),
+                       "recipes": it.agg.iter().map(|(k, l)| json!([AGG_SHAPES[*k].0, l])).collect::<Vec<_>>(), "limit_ms": 60_000});
+                }
                 let muts: Vec<String> = it.idxs.iter().map(|&k| s.set.text(&s.set.muts[k as usize])).collect();
                 json!({"mode": "batch",
                        "seed_file": work.join(format!("seed{}.bin", it.seed)).display().to_string(),
@@ -2320,15 +2520,15 @@ pub fn run(ctx: &Ctx) -> EngineResult {
         let mut next: Vec<Item> = Vec::new();
         for (it, o) in queue.iter().zip(outs) {
             match o {
-                None => not_executed += it.idxs.len() as u64,
+                None => not_executed += it.len() as u64,
                 Some(iso::Outcome::Ok(v)) => {
                     if let Some(m) = v["machinery"].as_str() {
                         return machinery(format!("worker: {m}"));
                     }
-                    if v["done"].as_u64().unwrap_or(0) != it.idxs.len() as u64 {
+                    if v["done"].as_u64().unwrap_or(0) != it.len() as u64 {
                         return machinery("worker answered for fewer mutants than it was given");
                     }
-                    executed += it.idxs.len() as u64;
+                    executed += it.len() as u64;
                     nontrivial += v["nontrivial"].as_u64().unwrap_or(0);
                     validated += v["validated"].as_u64().unwrap_or(0);
                     shared_div += v["shared_divergence"].as_u64().unwrap_or(0);
@@ -2343,6 +2543,8 @@ pub fn run(ctx: &Ctx) -> EngineResult {
                     for (k, p) in per {
                         if let Some(&mi) = it.idxs.get(k) {
                             fails.push((it.seed, mi, Fail::Panic(p)));
+                        } else if let Some(&(sh, lv)) = it.agg.get(k) {
+                            agg_fails.push((lv, it.seed, sh, Fail::Panic(p)));
                         }
                     }
                     for (k, (stage, kind, msg)) in dd {
@@ -2350,8 +2552,11 @@ pub fn run(ctx: &Ctx) -> EngineResult {
                             return machinery(format!("child died while building the seed runtime: {msg}"));
                         }
                         deaths += 1;
+                        let msg = if kind == "timeout" { "timeout".to_string() } else { msg };
                         if let Some(&mi) = it.idxs.get(k) {
-                            fails.push((it.seed, mi, Fail::Death(if kind == "timeout" { "timeout".into() } else { msg }, stage)));
+                            fails.push((it.seed, mi, Fail::Death(msg, stage)));
+                        } else if let Some(&(sh, lv)) = it.agg.get(k) {
+                            agg_fails.push((lv, it.seed, sh, Fail::Death(msg, stage)));
                         }
                     }
                 }
@@ -2360,7 +2565,7 @@ pub fn run(ctx: &Ctx) -> EngineResult {
                     if attempt >= 2 {
                         return machinery(format!("worker (fork server) failed twice: {other:?}"));
                     }
-                    next.push(Item { seed: it.seed, idxs: it.idxs.clone() });
+                    next.push(Item { seed: it.seed, idxs: it.idxs.clone(), agg: it.agg.clone() });
                 }
             }
         }
@@ -2387,6 +2592,21 @@ pub fn run(ctx: &Ctx) -> EngineResult {
         };
         rep.violations_from(vs);
     }
+    // aggregate cycles: shortest payload first, then seed (ascending size), then shape
+    agg_fails.sort_by_key(|f| (f.0, f.1, f.2));
+    for (lv, si, sh, f) in &agg_fails {
+        let seed = &seeds[*si];
+        let shape = AGG_SHAPES[*sh].0;
+        let (case, descr) = agg_case(seed, shape, *lv);
+        let size = case["size"].as_u64().unwrap_or(0) as usize;
+        let field = agg_class(shape);
+        let vs = match f {
+            Fail::Panic(p) => mutant_violations(p, None, "aggcycle", "TYPE_TABLE", field, &descr, &seed.name, size, &case),
+            Fail::Death(msg, stage) => mutant_violations(&[], Some((msg, *stage)), "aggcycle", "TYPE_TABLE", field, &descr, &seed.name, size, &case),
+        };
+        rep.violations_from(vs);
+    }
+    rep.sample(json!({"family": "aggcycle", "seed": seeds[0].name, "shape": AGG_SHAPES[3].0, "levels": AGG_LEVELS[3]}));
     if let Some(s) = seeds.get(1) {
         if let Some(m) = s.set.muts.get(s.set.muts.len() / 2) {
             rep.sample(json!({"family": FAMILIES[m.family as usize], "seed": s.name, "mutation": s.set.describe(m)}));
@@ -2427,7 +2647,7 @@ pub fn run(ctx: &Ctx) -> EngineResult {
     rep.set("distinct_nontrivial", nontrivial + distinct_containers.len() as u64);
     rep.set(
         "rule",
-        "round trip: every generated program, every repository .st file that compiles to bytecode on its own and every directory of .st files that compiles as a project (validate(compile(p)), decode(encode(m))==m, encode(decode(e))==e, metadata/apply without panic). mutation: for every seed container the complete set of {every byte x 7 values; every even/4-aligned offset and every 2/4/8-byte layout field x boundary values, value+-1, section length(+1), file length(+1), remaining bytes(+1); every tag byte x its domain; every truncation raw and with repaired section table; every section x every shorter length; section-table swaps/copies/retags/aliases/extensions/relocations; every type-id field x every type index, self- and 2-cycle aliases paired with a retyped constant; header boundary product on the two smallest seeds}, duplicates by resulting bytes dropped, CRC recomputed, each run decode->validate->metadata->apply->hot-reload in an RLIMIT_AS worker. distinct_nontrivial = distinct emitted containers + distinct mutants that passed framing and CRC and reached a section decoder.",
+        "round trip: every generated program, every repository .st file that compiles to bytecode on its own and every directory of .st files that compiles as a project (validate(compile(p)), decode(encode(m))==m, encode(decode(e))==e, metadata/apply without panic). mutation: for every seed container the complete set of {every byte x 7 values; every even/4-aligned offset and every 2/4/8-byte layout field x boundary values, value+-1, section length(+1), file length(+1), remaining bytes(+1); every tag byte x its domain; every truncation raw and with repaired section table; every section x every shorter length; section-table swaps/copies/retags/aliases/extensions/relocations; every type-id field x every type index, self- and 2-cycle aliases paired with a retyped constant; header boundary product on the two smallest seeds; aggregate type cycles: 13 cycle shapes through STRUCT/UNION/ARRAY (self, 2-cycles, rewritten existing entries, and controls with exactly one ALIAS/SUBRANGE hop) x a constant of that type whose payload keeps the walk going for {1,16,256,4096,65536,1048576} levels, container rebuilt with lengths/CRC recomputed}, duplicates by resulting bytes dropped, CRC recomputed, each run decode->validate->metadata->apply->hot-reload in an RLIMIT_AS worker. distinct_nontrivial = distinct emitted containers + distinct mutants that passed framing and CRC and reached a section decoder.",
     );
     rep.set("exhaustive", exhaustive);
     rep.assume("'memory proportional to the input' is approximated by RLIMIT_AS = 1 GiB for inputs below 64 KiB: only an allocation request that fails under that cap (abort) is reported; smaller over-allocations are not detected");
